@@ -1194,9 +1194,9 @@ class SyncState:  # pylint: disable=too-many-instance-attributes, too-many-publi
         now = time.time()
         earlier_than = now - age
         for e in changes:
-            if (e[LOCAL].changed and (e[LOCAL].changed <= earlier_than)) \
-                    or (e[REMOTE].changed and (e[REMOTE].changed <= earlier_than)) \
-                    or e.priority < 0:
+            # an entry has aged when its most recent change notification (on either side) is old enough
+            latest = max(e[LOCAL].changed or 0, e[REMOTE].changed or 0)
+            if (latest and latest <= earlier_than) or e.priority < 0:
                 return e
             # else:
             #     log.debug("HERE now=%s age=%s earlier_than=%s changed=%s:%s %s", now, age, earlier_than, e[LOCAL].changed, e[REMOTE].changed, e)
